@@ -306,6 +306,7 @@ class Engine:
         self.externals = {}          # dotted external name -> assumed contract (python callable)
         self.generator_sinks = {}    # qualified generator function -> factory(frame) of a yield sink (body verification)
         self.callee_contracts = {}   # qualified name -> python callable(engine, args, kwargs)
+        self.recursive_contracts = set()   # qualified names whose contract also stands in for the recursive calls of the function itself
         self.loop_specs = {}         # (qualname, k) -> LoopSpec
         from . import npmodel
         npmodel.install(self)
@@ -590,7 +591,7 @@ class Engine:
     def call_closure(self, f, args, kwargs):
         node = f.node
         qn = self.qualname(f)
-        if qn in self.callee_contracts and self.call_depth > 0 and qn not in self.current_func:
+        if qn in self.callee_contracts and self.call_depth > 0 and (qn not in self.current_func or qn in self.recursive_contracts):
             return self.callee_contracts[qn](self, f, args, kwargs)
         env = Env(f.env)
         self.bind_args(f, node.args, args, kwargs, env)
@@ -915,7 +916,7 @@ class Frame:
         k = T.fresh("k", "int")
         spec.k = k          # functional havoc: the contract may install the specified state for k completed iterations
         # havoc
-        self.havoc_for_spec(spec, mods)
+        self.havoc_for_spec(spec, mods, assigned_names(st.body) | assigned_names([st.target]))
         if which == 0:
             # (b) one arbitrary iteration preserves the invariant
             eng.assume(T.land(T.compare("ge", k, 0), T.compare("lt", k, n)))
@@ -934,7 +935,14 @@ class Frame:
         eng.assume(T.zb(spec.invariant(self, n)))
         self.exec_block(st.orelse)
 
-    def havoc_for_spec(self, spec, mods):
+    def havoc_for_spec(self, spec, mods, assigned=()):
+        """Install the loop contract's state for an arbitrary iteration.  The frame of the loop is enforced, not trusted: a variable the
+        loop body rebinds or mutates in place but the contract does not list under ``modifies`` is poisoned - reading it before the body
+        has rebound it (state carried from one iteration to the next, or used after the loop) ends the path as unsupported."""
+        for name in sorted(set(assigned) - set(mods)):
+            if name == "self" and "<self>" in mods:
+                continue
+            self.env.vars[name] = LoopCarried(name, getattr(spec, "name", "?"))
         for name in mods:
             if name.startswith("<"):          # pseudo-name: state that is not a variable (the loop's iterator)
                 if spec.havoc:
@@ -980,7 +988,7 @@ class Frame:
         mods = spec.modifies if spec.modifies is not None else sorted(assigned_names(st.body) | assigned_names([st.target]))
         k = T.fresh("k", "int")
         spec.k = k
-        self.havoc_for_spec(spec, mods)
+        self.havoc_for_spec(spec, mods, assigned_names(st.body) | assigned_names([st.target]))
         eng.assume(T.compare("ge", k, 0))
         eng.assume(T.zb(spec.invariant(self, k)))
         ok, v = it.try_next(eng)
@@ -1004,7 +1012,7 @@ class Frame:
         mods = spec.modifies if spec.modifies is not None else sorted(assigned_names(st.body))
         k = T.fresh("k", "int")
         spec.k = k
-        self.havoc_for_spec(spec, mods)
+        self.havoc_for_spec(spec, mods, assigned_names(st.body))
         eng.assume(T.compare("ge", k, 0))
         eng.assume(T.zb(spec.invariant(self, k)))
         c = self.truth(self.eval(st.test))
@@ -1068,9 +1076,13 @@ class Frame:
         if name in self.env.globals_decl:
             return self.eng.lookup_global(self.module, name)
         try:
-            return self.env.lookup(name)
+            v = self.env.lookup(name)
         except KeyError:
             return self.eng.lookup_global(self.module, name)
+        if isinstance(v, LoopCarried):
+            raise Unsupported(f"loop frame: '{v.name}' is carried between iterations of loop '{v.loop}' (or read after it) "
+                              f"but is not in the loop contract's modifies clause")
+        return v
 
     def assign(self, tg, v):
         from . import npmodel
@@ -1508,6 +1520,13 @@ class ComplexVal:
     def __init__(self, re, im):
         self.re = re
         self.im = im
+
+
+class LoopCarried:
+    """Poison value of a variable that a contracted loop assigns but whose value the loop contract does not describe."""
+    def __init__(self, name, loop):
+        self.name = name
+        self.loop = loop
 
 
 def assigned_names(stmts):
